@@ -83,7 +83,9 @@ def contract_unit(c, tier='quick', probe=False, world_setup=None):
                  and o['kind'] != 'vacuity']
         definite = [o for o in out if o['status'] == 'failed'
                     and o['kind'] in ('post', 'raises')]
-        if shaky and c.loops and not probe and not definite:
+        no_inv = any('without invariant' in (o.get('detail') or '')
+                     for o in out)
+        if shaky and (c.loops or no_inv) and not probe and not definite:
             rbudget = Budget(branch_ms=1000, prove_ms=3000, max_paths=80)
             for k in (0, 1, 2, 3):
                 c3 = copy.copy(c)
